@@ -9,49 +9,54 @@ Dst3 == {"absent", "fresh", "stale"}
 BB == BOOLEAN
 FF == {FALSE}
 TT == {TRUE}
-D(us, rq, sa, s2, sb, al, su, im, sp, da, db, dk, rf, ba, bb, bs, nd, rb, ie, nw, dr, tx, bi, qu) ==
-  [usage |-> us, req |-> rq, srcA |-> sa, src2A |-> s2, srcB |-> sb, alias |-> al, sub |-> su, imp |-> im, spell |-> sp, dstA |-> da, dstB |-> db, dstKind |-> dk, reqForm |-> rf,
+D(us, rq, sa, s2, sb, al, su, im, sp, da, db, dk, rf, st, ba, bb, bs, nd, rb, ie, nw, dr, tx, bi, qu) ==
+  [usage |-> us, req |-> rq, srcA |-> sa, src2A |-> s2, srcB |-> sb, alias |-> al, sub |-> su, imp |-> im, spell |-> sp, dstA |-> da, dstB |-> db, dstKind |-> dk, reqForm |-> rf, stubB |-> st,
    borA |-> ba, borB |-> bb, base |-> bs, noDeps |-> nd, rebuild |-> rb, ignoreErrors |-> ie, noWrites |-> nw,
    dryRun |-> dr, texts |-> tx, buildIndex |-> bi, quiet |-> qu]
 KeepAll(x) == TRUE
 
 \* usage errors and --help: whatever else is on the command line, nothing happens
 Dom_usage == D({"help", "noMibs", "badOpt", "badFormat", "badLevel"}, {<<"AA-MIB">>}, {"ok"}, {"missing"}, {"ok"}, FF, FF, {"AB"}, {"exact"},
-               {"absent"}, {"stale"}, {"dir"}, {"name"}, FF, FF, TT, FF, FF, FF, FF, BB, {"no"}, BB, FF)
+               {"absent"}, {"stale"}, {"dir"}, {"name"}, FF, FF, FF, TT, FF, FF, FF, FF, BB, {"no"}, BB, FF)
 
 \* status slice: every source / destination / borrower state of two modules with A importing B, main flags
-Dom_status == D({"none"}, {<<"AA-MIB">>, <<"BB-MIB", "AA-MIB">>}, Src3, {"missing"}, Src3, FF, FF, {"AB"}, {"exact"}, Dst3, Dst3, {"dir"}, {"name"}, BB, BB, TT,
+Dom_status == D({"none"}, {<<"AA-MIB">>, <<"BB-MIB", "AA-MIB">>}, Src3, {"missing"}, Src3, FF, FF, {"AB"}, {"exact"}, Dst3, Dst3, {"dir"}, {"name"}, FF, BB, BB, TT,
                 BB, BB, BB, BB, BB, {"no"}, FF, FF)
 Keep_status_q(x) == x.dstB # "stale" /\ (x.borA => x.srcA # "ok") /\ (x.noDeps => ~x.rebuild)
 
 \* graph slice: import shapes (cycle included), alias file, base modules absent, request forms
 Dom_graph == D({"none"}, {<<"AA-MIB">>, <<"BB-MIB">>, <<"afile">>, <<"BB-MIB", "afile">>, <<"afile", "AA-MIB">>},
-               Src3, {"missing"}, Src3, BB, BB, {"none", "AB", "BA", "both"}, {"exact", "variant"}, {"absent"}, {"absent", "fresh"}, {"dir"}, {"name", "path"}, FF, BB, BB,
+               Src3, {"missing"}, Src3, BB, BB, {"none", "AB", "BA", "both"}, {"exact", "variant"}, {"absent"}, {"absent", "fresh"}, {"dir"}, {"name", "path"}, FF, FF, BB, BB,
                BB, FF, BB, BB, FF, {"no"}, FF, FF)
 Keep_graph_q(x) == (x.sub => x.srcB = "ok" /\ x.imp \in {"AB", "both"} /\ x.spell = "exact" /\ ~x.alias /\ x.dstB = "absent" /\ x.base /\ x.reqForm = "name")
                    /\ (x.reqForm = "path" => x.spell = "exact" /\ x.imp \in {"AB", "none"} /\ x.base /\ ~x.borB) /\ ~x.noWrites /\ (x.dstB = "fresh" => x.borB) /\ (x.spell = "variant" => x.imp # "none" /\ ~x.alias)
 
 \* sources slice: two source directories, the first / second holding a good / broken / no copy of AA-MIB
 Dom_sources == D({"none"}, {<<"AA-MIB">>, <<"AA-MIB", "BB-MIB">>, <<"afile", "AA-MIB">>, <<"afile">>}, Src3, Src3, Src3, BB, FF, {"AB", "BA"}, {"exact"},
-                 {"absent", "fresh"}, {"absent"}, {"dir"}, {"name"}, BB, FF, TT, BB, FF, BB, FF, FF, {"no"}, FF, FF)
+                 {"absent", "fresh"}, {"absent"}, {"dir"}, {"name"}, FF, BB, FF, TT, BB, FF, BB, FF, FF, {"no"}, FF, FF)
 
 \* liveness slice (small): cycle of imports by variant names, alias, every source state
 Dom_live == D({"none", "badOpt"}, {<<"AA-MIB">>, <<"afile", "BB-MIB">>}, Src3, {"missing"}, Src3, BB, FF, {"both"}, {"exact", "variant"},
-              {"absent"}, {"fresh"}, {"dir"}, {"name"}, FF, TT, TT, BB, FF, BB, FF, FF, {"no"}, BB, FF)
+              {"absent"}, {"fresh"}, {"dir"}, {"name"}, FF, FF, TT, TT, BB, FF, BB, FF, FF, {"no"}, BB, FF)
 
 \* destination slice: the destination "directory" is a regular file / a directory; index, ignore-errors, borrower
 Dom_dest == D({"none"}, {<<"AA-MIB">>}, {"ok", "broken"}, {"missing"}, {"ok", "missing"}, FF, FF, {"AB", "none"}, {"exact"},
-              {"absent", "fresh"}, {"absent"}, {"dir", "file"}, {"name", "path"}, BB, FF, TT,
+              {"absent", "fresh"}, {"absent"}, {"dir", "file"}, {"name", "path"}, FF, BB, FF, TT,
               BB, BB, BB, BB, BB, {"no"}, BB, BB)
 Keep_dest_q(x) == (x.dstKind = "file" \/ x.reqForm = "path") /\ (x.quiet => x.buildIndex) /\ (x.noDeps => ~x.rebuild)
 
 \* null format: nothing is stored whatever happens; statuses, report and exit as usual
 Dom_null == D({"none"}, {<<"AA-MIB">>, <<"BB-MIB", "afile">>}, Src3, {"missing"}, Src3, BB, FF, {"AB", "both"}, {"exact"},
-              {"absent"}, {"absent"}, {"dir"}, {"name"}, FF, BB, TT,
+              {"absent"}, {"absent"}, {"dir"}, {"name"}, FF, FF, BB, TT,
               BB, FF, BB, BB, BB, {"no"}, BB, FF)
 
+\* stub slice: --mib-stub=BB-MIB replaces the default stubs (base modules get compiled), pysnmp ships the base modules
+Dom_stub == D({"none"}, {<<"AA-MIB">>, <<"BB-MIB">>}, {"ok"}, {"missing"}, Src3, FF, FF, {"AB", "none"}, {"exact"},
+              {"absent", "fresh"}, {"absent"}, {"dir"}, {"name"}, BB, FF, BB, BB,
+              FF, BB, BB, FF, FF, {"no"}, FF, FF)
+
 \* reporting slice: index, quiet, texts/borrower flavour, dry-run / no-writes
-Dom_report == D({"none"}, {<<"AA-MIB">>}, {"ok"}, {"missing"}, Src3, FF, FF, {"AB"}, {"exact"}, Dst3, {"absent"}, {"dir"}, {"name"}, FF, BB, TT,
+Dom_report == D({"none"}, {<<"AA-MIB">>}, {"ok"}, {"missing"}, Src3, FF, FF, {"AB"}, {"exact"}, Dst3, {"absent"}, {"dir"}, {"name"}, FF, FF, BB, TT,
                 FF, FF, BB, BB, BB, {"no", "before", "after"}, BB, BB)
 Keep_report_q(x) == x.buildIndex \/ (x.texts = "no" /\ ~x.quiet)
 
